@@ -354,6 +354,14 @@ func runC02(t *testing.T, sc *Scenario, tape *core.Tape, j *core.Journal, keep b
 			rr.SimElapsed = time.Since(start)
 			cancel()
 			conn.clientClose()
+			// whatever the parser still wants to say is taken off its hands, so that its
+			// goroutine (and the buffers it holds) does not outlive the run
+			go func() {
+				for range ch {
+				}
+			}()
+			time.Sleep(time.Nanosecond)
+			synctest.Wait()
 		})
 	}()
 	if ex.Malformed {
